@@ -44,9 +44,11 @@ REQUIRED = {"traces_checked": 4, "kill_runs": 100, "error_runs": 100, "size_limi
 LEVEL_TEXT = ("Fault enumeration: every file-system call position of the short producers (status, zip, download) and a "
               "sample (quick) / all (thorough, capped) positions of the long ones (make_zip, mw-zip, mw-render) is hit "
               "with SIGKILL, ENOSPC and EIO by strace fault injection on the real code; a reader judges the published "
-              "path after each run; an offline checker validates the traced rename protocol.")
+              "path after each run; an offline checker validates the traced rename protocol of the un-faulted run and "
+              "of every error-injected run; a further fault model lets the disk fill up after N bytes (RLIMIT_FSIZE "
+              "set at the marker: a real short write, then EFBIG).")
 LEVEL_NOTE = "Trusts strace's injection and the per-format readers (JSON, zipfile.testzip, byte equality, pypdf, ODF zip+XML)."
-TECHNIQUE = "syscall-trace checker + exhaustive crash/error injection (strace inject) with a reader oracle on the published path"
+TECHNIQUE = "syscall-trace checker + exhaustive crash/error injection (strace inject) and disk-full-after-N-bytes runs (RLIMIT_FSIZE) with a reader oracle on the published path"
 
 PRODUCERS = {          # name -> (published file, quick position cap, thorough cap)
     "status": ("out.json", None, None),
